@@ -22,8 +22,10 @@ import (
 	"strings"
 	"time"
 
+	bconfig "go.minekube.com/gate/pkg/edition/bedrock/config"
 	"go.minekube.com/gate/pkg/gate"
 	"go.minekube.com/gate/pkg/gate/config"
+	"go.minekube.com/gate/pkg/util/configutil"
 
 	"verifharness/hx"
 )
@@ -268,8 +270,8 @@ var validEdits = []edit{
 	{[]string{"healthService"}, nil, false},
 	{[]string{"api", "enabled"}, true, false},
 	{[]string{"noAutoReload"}, true, false},
-	{[]string{"unknownTop"}, nil, false},                 // null for a member that does not exist: nothing to remove
-	{[]string{"config", "unknownOption"}, nil, false},    // ditto, nested
+	{[]string{"unknownTop"}, nil, false},                        // null for a member that does not exist: nothing to remove
+	{[]string{"config", "unknownOption"}, nil, false},           // ditto, nested
 	{[]string{"config", "status", "nope", "deeper"}, nil, true}, // creates {"nope":{}} — an unknown member after all
 }
 var badEdits = []edit{
@@ -355,9 +357,57 @@ func cfgCase(class string, cur *config.Config, patchText string, exp string) {
 	run.Case(class, "cfg "+exp+" "+doc(t)+" "+pd+" "+rd, out)
 }
 
+// effCase checks that the merge-patch target is the EFFECTIVE configuration: E = json.Marshal(current)
+// (independent of canonicalConfigJSON and of YAML), R = json.Marshal(candidate).  Only patches whose member
+// names are the same in both encodings are used here ({} and Lite routes).  Text components are left out
+// (their JSON form is re-segmented by a YAML round trip, which is outside this property).
+func effCase(class string, cur *config.Config, patchText string) {
+	c := *cur
+	c.Config.Status.Motd = nil
+	c.Config.ShutdownReason = nil
+	e, _ := decode(js(&c))
+	p, _ := decode(patchText)
+	rd := "-"
+	out := hx.Guard(20*time.Second, func() string {
+		cand, err := gate.C36MergeConfigPatch(&c, patchText)
+		if err != nil {
+			return "rej"
+		}
+		r, _ := decode(js(cand))
+		rd = doc(r)
+		return "acc"
+	})
+	run.Case(class, "eff "+doc(e)+" "+doc(p)+" "+rd, out)
+}
+
+func managedConfigs() []*config.Config {
+	var out []*config.Config
+	for _, m := range []bconfig.BoolOrManagedGeyser{
+		configutil.NewBoolOrStructBool[bconfig.ManagedGeyser](true),
+		configutil.NewBoolOrStructBool[bconfig.ManagedGeyser](false),
+		configutil.NewBoolOrStructStruct(bconfig.ManagedGeyser{Enabled: true, ConfigOverrides: map[string]any{"bedrock": map[string]any{"port": 19133.0}}}),
+		configutil.NewBoolOrStructStruct(bconfig.ManagedGeyser{Enabled: true, Engine: bconfig.ManagedEngineJava, DataDir: "geyser-data"}),
+	} {
+		c := config.DefaultConfig
+		c.Config.Bedrock.Enabled = true
+		c.Config.Bedrock.Managed = m
+		c.Config.Lite.Enabled = true
+		out = append(out, &c)
+	}
+	return out
+}
+
+const routePatch = `{"config":{"lite":{"routes":[{"host":"patched.example.test","backend":"b.example.test:25565"}]}}}`
+
 func main() {
 	run = hx.Start()
 	r := run.Rng
+
+	// --- fixed: the patch target must be the effective configuration (witness: bedrock.managed was dropped) ---
+	for _, c := range append(managedConfigs(), baseConfigs()...) {
+		effCase("eff-fixed", c, `{}`)
+		effCase("eff-fixed", c, routePatch)
+	}
 
 	// --- fixed: RFC 7396 appendix A, then shapes that matter for the Go code ---
 	rfc := [][2]string{
